@@ -162,7 +162,8 @@ class SymH:
     def _declare(self, name, v):
         if name in self.e.inputs:
             raise Undecided(f"harness input {name!r} declared twice")
-        self.e.inputs[name] = v
+        # a bytearray input may be mutated in place later: the model must report its value at declaration
+        self.e.inputs[name] = v.copy() if isinstance(v, SBytes) else v
         return v
 
     def int(self, name, lo=None, hi=None):
